@@ -5,7 +5,7 @@ PROPS=${PROPS:-C01 C02 C03 C04 C05 C06 C07 C08 C09 C10 C11 C12 C13 C14 C15 C16 C
 for d in ${@:-seeded/*}; do
   n=$(basename $d)
   git -C /repo diff --quiet || { echo "/repo dirty"; exit 2; }
-  git -C /repo apply $d/patch.diff || { echo "$n: patch failed"; continue; }
+  git -C /repo apply /verif/$d/patch.diff || { echo "$n: patch failed"; continue; }
   caught=$(printf "%s\n" $PROPS | xargs -P 10 -I{} sh -c 'bin/cdlint -prop {} -repo /repo -evidence "" 2>&1 | grep -q "^VIOLATION" && echo {}' | sort | tr "\n" " ")
   git -C /repo checkout -- .
   own=${n%-*}
